@@ -113,6 +113,13 @@ fn entries() -> Vec<Entry> {
         entry!(shapes::S18SubFirst),
         entry!(shapes::S19SubBetween),
         entry!(shapes::S20SubThenBare),
+        // declared names colliding with the built-in help spellings
+        entry!(shapes::S21HumanFlag),
+        entry!(shapes::S22HostValued),
+        entry!(shapes::S23LongHelpFlag),
+        entry!(shapes::S24HelpNamesWithCommand),
+        entry!(shapes::Show24),
+        entry!(shapes::Resize24),
         // inner levels on their own as well
         entry!(shapes::Arg13),
         entry!(shapes::Other13),
